@@ -81,6 +81,30 @@ impl Interp {
                 self.last.insert(i, r.clone());
                 r
             }
+            "fp" => {
+                // `fp <id> <k> <x…>`: `filter` while the k-th order comparison of the instrumented sample type panics
+                // (if the call makes fewer comparisons it is an ordinary `f`); the panic is contained here, the
+                // instance survives in whatever state the unwinding left it
+                let i = id(toks[1]);
+                let k: u64 = toks[2].parse().expect("harness: bad comparison budget");
+                let args: Vec<Val> = toks[3..].iter().map(|s| parse_val(s)).collect();
+                let inst = self.insts.get_mut(&i).expect("harness: unknown id");
+                crate::tracked::set_cmp_budget(Some(k));
+                let r = catch_unwind(AssertUnwindSafe(|| inst.f(&args)));
+                let fired = crate::tracked::cmp_budget_fired();
+                crate::tracked::set_cmp_budget(None);
+                match r {
+                    Ok(s) => {
+                        self.last.insert(i, s.clone());
+                        s
+                    }
+                    Err(_) if fired => {
+                        self.last.remove(&i);
+                        "panicked".to_string()
+                    }
+                    Err(e) => std::panic::resume_unwind(e),
+                }
+            }
             "acc" => self.insts[&id(toks[1])].acc(toks[2]),
             "guts" => self.insts.get_mut(&id(toks[1])).expect("harness: unknown id").guts(toks[2]),
             "cfg" => self.insts.get_mut(&id(toks[1])).expect("harness: unknown id").cfg(),
@@ -192,7 +216,7 @@ impl Interp {
             Ok(r) => Ok(r),
             Err(_) => {
                 let msg = last_panic();
-                if msg.contains("Q overflow") {
+                if msg.contains("Q overflow") || msg.contains("harness-unsupported:") {
                     Err("OVERFLOW".to_string())
                 } else if msg.contains("harness:") {
                     eprintln!("harness error on line [{}]: {}", line, msg);
